@@ -45,13 +45,15 @@ def parseDirective (ctx : Ctx) : P (Option Item × Ctx) := do
   if ← liftB (expectFieldCI "$ORIGIN".toUTF8.toList) then
     let ctx' ← parseOriginDirective ctx
     pure (none, ctx')
-  else if ← liftB (expectFieldCI "$TTL".toUTF8.toList) then
-    let ctx' ← parseTtlDirective ctx
-    pure (none, ctx')
-  else if ← liftB (expectFieldCI "$INCLUDE".toUTF8.toList) then
-    let item ← parseIncludeDirective ctx
-    pure (some item, ctx)
-  else P.fail .UnknownDirective
+  else do
+    if ← liftB (expectFieldCI "$TTL".toUTF8.toList) then
+      let ctx' ← parseTtlDirective ctx
+      pure (none, ctx')
+    else do
+      if ← liftB (expectFieldCI "$INCLUDE".toUTF8.toList) then
+        let item ← parseIncludeDirective ctx
+        pure (some item, ctx)
+      else P.fail .UnknownDirective
 
 /-! ### mod.rs -/
 
